@@ -424,6 +424,7 @@ _NEUTRAL_BASES = {
     "neutral-r21": ["C15", "C16", "C18", "C19"],
     "neutral-r22": ["C05", "C06", "C13", "C15"],
     "neutral-r23": ["C07", "C12", "C14", "C17", "C20"],
+    "neutral-r25": ["C08", "C15"],
     "neutral-r27": ["C13", "C14"],
     "neutral-r28": ["C05", "C15", "C16", "C17"],
     "neutral-r29": ["C14", "C17", "C20"],
@@ -590,6 +591,10 @@ _CROSS5 = {
                                     "[ticker(t), total_value(tv), tax(tx)] => {\n                (t, Operation::Dividend {\n                    total_value: tv,\n                    tax_paid: or_zero_gbp(std::iter::once(tx)),")], ["R1:cmd_dividend"]))],
 }
 _CROSS8 = {
+    "C08": [on("neutral-r25", mut("r25+zero-rate-allowed", "pipeline parser builds a quote from a rate >= 0",
+                                  [(MPARSER, "Ok(rate_per_gbp) if rate_per_gbp > Decimal::ZERO => Ok(Some(Quote {", "Ok(rate_per_gbp) if rate_per_gbp >= Decimal::ZERO => Ok(Some(Quote {")], ["R7:rate"])),
+            on("neutral-r25", mut("r25+month-not-compared", "period carrier compares the year only",
+                                  [(MPARSER, "if (expected_year, expected_month) != (self.year, self.month) =>", "if expected_year != self.year =>")], ["R7:period:month"]))],
     "C14": [on("neutral-r27", mut("r27+sell-price-fees-swapped", "carrier-struct reader puts the FEES amount into price and the price into fees",
                                   [(PARSER, "            Operation::Sell {\n                amount,\n                price,\n                fees,\n            }",
                                     "            Operation::Sell {\n                amount,\n                price: fees,\n                fees: price,\n            }")], ["R1:"]))],
